@@ -609,6 +609,88 @@ func TestVerifC04(t *testing.T) {
 		c.Distinct(fmt.Sprintf("fp|%d|%v|%d", n0, nums1, f.Len()))
 	})
 
+	// ---- an object stream of more than 128 KiB (decoded) whose members are mostly
+	// keywords and other short tokens: every alignment of a token with the
+	// 32 KiB pieces in which a decompressor hands out its data
+	r.Phase("large-object-stream", r.N(16, 320), func(c *kit.Case) {
+		rng := c.Rng
+		n := 8000 + rng.Intn(2000) // (the Reader accepts object streams of up to 10000 members)
+		texts := []string{"true", "false", "null", "17", "(s)", "/N", "[1 2]", "<</K true>>", "-0.5"}
+		vals := []pdf.Object{pdf.Boolean(true), pdf.Boolean(false), nil, pdf.Integer(17), pdf.String("s"), pdf.Name("N"),
+			pdf.Array{pdf.Integer(1), pdf.Integer(2)}, pdf.Dict{"K": pdf.Boolean(true)}, pdf.Real(-0.5)}
+		var head, body bytes.Buffer
+		kinds := make([]int, n)
+		offs := make([]int, n)
+		shift := strings.Repeat(" ", c.Index%8)
+		for i := 0; i < n; i++ {
+			k := rng.Intn(len(texts))
+			if rng.Chance(1, 2) {
+				k = rng.Intn(3) // the keywords
+			}
+			kinds[i] = k
+			offs[i] = body.Len()
+			fmt.Fprintf(&head, "%d %d ", 10+i, body.Len())
+			body.WriteString(texts[k])
+			body.WriteString(" ")
+			if i == 0 {
+				body.WriteString(shift)
+			}
+		}
+		first := head.Len()
+		raw := kit.Deflate(append(head.Bytes(), body.Bytes()...))
+		var f bytes.Buffer
+		f.WriteString("%PDF-1.7\n")
+		o1 := f.Len()
+		f.WriteString("1 0 obj\n<</Type/Catalog/Pages 2 0 R>>\nendobj\n")
+		o2 := f.Len()
+		f.WriteString("2 0 obj\n<</Type/Pages/Kids[]/Count 0>>\nendobj\n")
+		o3 := f.Len()
+		fmt.Fprintf(&f, "3 0 obj\n<</Type/ObjStm/N %d/First %d/Filter/FlateDecode/Length %d>>\nstream\n", n, first, len(raw))
+		f.Write(raw)
+		f.WriteString("\nendstream\nendobj\n")
+		o4 := f.Len()
+		var rows []byte
+		row := func(t byte, a, b int) { rows = append(rows, t, byte(a>>16), byte(a>>8), byte(a), byte(b>>8), byte(b)) }
+		row(0, 0, 65535)
+		row(1, o1, 0)
+		row(1, o2, 0)
+		row(1, o3, 0)
+		row(1, o4, 0)
+		for i := 0; i < n; i++ {
+			row(2, 3, i)
+		}
+		fmt.Fprintf(&f, "4 0 obj\n<</Type/XRef/Size %d/W[1 3 2]/Index[0 5 10 %d]/Root 1 0 R/Length %d>>\nstream\n", 10+n, n, len(rows))
+		f.Write(rows)
+		fmt.Fprintf(&f, "\nendstream\nendobj\nstartxref\n%d\n%%%%EOF\n", o4)
+		data := f.Bytes()
+		rd, err := pdf.NewReader(bytes.NewReader(data), int64(len(data)), &pdf.ReaderOptions{ErrorHandling: pdf.ErrorHandlingStop})
+		if err != nil {
+			c.Violationf("large-object-stream/open", "object stream of %d members, %d bytes decoded: NewReader: %v", n, first+body.Len(), err)
+			return
+		}
+		checked := 0
+		for i := 0; i < n; i++ {
+			pos := first + offs[i]
+			near := false
+			for b := 32768; b < first+body.Len()+32768; b += 32768 {
+				if pos > b-12 && pos < b+4 {
+					near = true
+				}
+			}
+			if !near && i%200 != c.Index%200 {
+				continue
+			}
+			got, err := rd.Get(pdf.NewReference(uint32(10+i), 0), true)
+			if err != nil || gen.Canon(got) != gen.Canon(vals[kinds[i]]) {
+				c.Violationf("large-object-stream/value", "object stream of %d members, %d bytes decoded: member %d (%q at decoded offset %d): Get = %s, %v", n, first+body.Len(), i, texts[kinds[i]], pos, kit.Trunc(gen.Canon(got), 100), err)
+				return
+			}
+			checked++
+		}
+		c.R.Count("large_object_stream_members_read", int64(checked))
+		c.Distinct(fmt.Sprintf("los|%d|%d|%d", n, first, c.Index%8))
+	})
+
 	// ---- the /Length clause
 	r.Phase("stream-length", r.N(4000, 100000), func(c *kit.Case) {
 		// body: does not end in CR/LF, does not contain EOL+endstream (here: no "endstream" at all)
